@@ -346,7 +346,8 @@ func workerMain(o *options) {
 		n := 0
 		j := jobs[jm.Run]
 		e.Params = j.Params
-		for len(stack) > 0 && n < jm.Budget {
+		t0 := time.Now()
+		for len(stack) > 0 && n < jm.Budget && time.Since(t0) < 20*time.Second { // report back at least every 20 s + one path
 			p := stack[len(stack)-1]
 			stack = stack[:len(stack)-1]
 			res, pend := e.RunPrefix(j, p, nil)
@@ -555,8 +556,8 @@ func (r *runState) absorb(rep *replyMsg) {
 			r.seenP[key]++
 			if x.Kind == interp.KFuel {
 				r.nFuel++
-				if r.nFuel >= 40 && !r.stop {
-					r.stop, sum.Why = true, "stopped after 40 paths that exhausted the instruction budget"
+				if r.nFuel >= 8 && !r.stop {
+					r.stop, sum.Why = true, "stopped after 8 paths that exhausted their budget"
 				}
 			}
 			if r.seenP[key] <= 3 && len(sum.Problems) < 200 {
@@ -690,6 +691,18 @@ func (p *pool) exploreAll(runs []runSpec, hdr *header) []*summary {
 				return
 			}
 			r.absorb(&rep)
+			// across all runs of this invocation: enough paths never ended - the rest would only repeat it, slowly
+			totalFuel := 0
+			for _, o := range states {
+				totalFuel += o.nFuel
+			}
+			if totalFuel >= 24 {
+				for _, o := range states {
+					if !o.done && !o.stop {
+						o.stop, o.sum.Why = true, "stopped: 24 paths of this invocation exhausted their budget"
+					}
+				}
+			}
 			d := subStats(rep.Stats, before)
 			addStats(&r.sum.Stats, &d)
 			w.last = rep.Stats
